@@ -75,6 +75,25 @@ func genC18(t *rapid.T) C18Case {
 		s.Hist = rapid.SampledFrom([]string{"", "", "cap", "acc"}).Draw(t, "h")
 		c.Pool = append(c.Pool, s)
 	}
+	if h.Rare(t, "hugeconc", 40) {
+		// scratch requests of 4096 words and more (recursive division by 1400+ words, Karatsuba on 1400+ words): a
+		// size-keyed side buffer would only be touched here
+		mk := func(l string, n int) h.Spec {
+			d := h.GenDigitsN(t, l, n)
+			return h.Spec{F: "f", D: d, E: int64(n / 2), P: uint(len(d)), M: h.GenMode(t, l+"m")}
+		}
+		nb := rapid.SampledFrom([]int{26000, 28500, 31000, 40000}).Draw(t, "hugeb")
+		c.Pool = []h.Spec{mk("hx", 2*nb+rapid.IntRange(-100, 100).Draw(t, "hxo")), mk("hy", nb), mk("hs", 30)}
+		c.Progs = nil
+		for g := rapid.IntRange(2, 5).Draw(t, "hugeg"); g > 0; g-- {
+			var prog []ConcOp
+			for i := rapid.IntRange(1, 2).Draw(t, "hugen"); i > 0; i-- {
+				prog = append(prog, ConcOp{K: rapid.SampledFrom([]string{"quo", "quo", "mul", "sqr"}).Draw(t, "hk"), A: []int{0, 1, 2}, P: uint(nb + rapid.IntRange(0, 50).Draw(t, "hp")), M: h.GenMode(t, "hm")})
+			}
+			c.Progs = append(c.Progs, prog)
+		}
+		return c
+	}
 	k := rapid.IntRange(2, 8).Draw(t, "goroutines")
 	for g := 0; g < k; g++ {
 		n := rapid.IntRange(1, 8).Draw(t, "nops")
@@ -221,7 +240,7 @@ func checkC18(c C18Case, o *h.Obs) *h.Fail {
 	return nil
 }
 
-const ruleC18 = "rapid-generated workloads under the race detector (GORACE=halt_on_error=1), run with two race builds - the default one and one with -tags decimal_pure_go, because the detector does not see memory accesses made by the amd64 assembly kernels -: a pool of 2-6 shared operands (zeros and infinities; short values below one; small; straddling the Karatsuba threshold of 30 words; straddling the recursive-division threshold of 100 words; up to 4000 (quick) / 8000 (thorough) digits; clean, large-capacity and acc != Exact histories) and 2-8 goroutines each running 1-8 operations (Add, Sub, Mul, Mul(x,x), Quo, FMA, Sqrt, Set, Cmp, Text, Format, Float64, Int, GobEncode, MarshalText, runtime.GC to empty the scratch-buffer pool, Gosched) into receivers of their own; GOMAXPROCS drawn from {1,2,4,16}. Oracle: no race report; every concurrent result equals the result of the same program run sequentially beforehand; every shared operand is bit-identical afterwards. Non-trivial = at least two goroutines sharing an operand of >= 30 words with at least one operation that uses pooled scratch space. The race detector flags conflicting unsynchronised accesses that occur in a run largely independent of timing; interleaving-only failures without a race are outside what this search can show (no schedule enumeration)."
+const ruleC18 = "rapid-generated workloads under the race detector (GORACE=halt_on_error=1), run with two race builds - the default one and one with -tags decimal_pure_go, because the detector does not see memory accesses made by the amd64 assembly kernels -: a pool of 2-6 shared operands (zeros and infinities; short values below one; small; straddling the Karatsuba threshold of 30 words; straddling the recursive-division threshold of 100 words; up to 4000 (quick) / 8000 (thorough) digits; clean, large-capacity and acc != Exact histories) and 2-8 goroutines each running 1-8 operations (Add, Sub, Mul, Mul(x,x), Quo, FMA, Sqrt, Set, Cmp, Text, Format, Float64, Int, GobEncode, MarshalText, runtime.GC to empty the scratch-buffer pool, Gosched) into receivers of their own; GOMAXPROCS drawn from {1,2,4,16}; about one workload in 40 shares operands of 26000-80000 digits between 2-5 goroutines dividing and multiplying them (scratch requests of 4096 words and more). Enumerated first in every process (TestC18Grid, cold start): 16 goroutines make the process's very first calls of every operation kind at the same moment on shared operands (whatever the library sets up lazily is then set up concurrently), compared with the same programs run sequentially afterwards. Oracle: no race report; every concurrent result equals the result of the same program run sequentially beforehand; every shared operand is bit-identical afterwards. Non-trivial = at least two goroutines sharing an operand of >= 30 words with at least one operation that uses pooled scratch space. The race detector flags conflicting unsynchronised accesses that occur in a run largely independent of timing; interleaving-only failures without a race are outside what this search can show (no schedule enumeration)."
 
 var propC18 = &h.Prop[C18Case]{ID: "C18", Rule: ruleC18, Gen: genC18, Check: checkC18, Matchers: map[string]func(C18Case) bool{}}
 
